@@ -25,7 +25,7 @@ RULE = (
     "quotes, lambdas, conditionals, comments and newlines inside brackets, f-strings) x filters x layouts. "
     "distinct = (configuration, expression text); non-trivial = at least two filters actually applied."
 )
-RULE += " added since: filters built by a call taking dict/set display arguments (mk({'a': 1}), mk({2}, k={})). string literals spanning lines (triple-quoted, backslash-continued) inside ${}, also below control lines and inside defs."
+RULE += " added since: filters built by a call taking dict/set display arguments (mk({'a': 1}), mk({2}, k={})). string literals spanning lines (triple-quoted, backslash-continued) inside ${}, also below control lines and inside defs. None among the values."
 ASSUMPTIONS = [
     "default and page filter names resolve at module level (imports / <%! %>), as documented; expression "
     "filters may also come from the context",
